@@ -11,6 +11,8 @@ OL_WRAPPED_ITER: _ol_reserved_name = "__ol_it_{}"
 OL_FOR_ITEM: _ol_reserved_name = "__ol_item_{}"
 OL_WHILE_DUMMY: _ol_reserved_name = "__ol_while_{}"
 OL_ITER_WRAPPER: _ol_reserved_name = "__ol_iter_wrapper"  # don't need format here
+OL_ITERTOOLS: _ol_reserved_name = "__ol_itertools"  # don't need format here
+OL_IMPORTLIB: _ol_reserved_name = "__ol_importlib"  # don't need format here
 OL_ASSIGN_TMP: _ol_reserved_name = "__ol_assign_{}"
 OL_AUGASSIGN_TMP: _ol_reserved_name = "__ol_augass_{}"
 OL_AUGASSIGN_SLICE_TMP: _ol_reserved_name = "__ol_sllice_{}"
